@@ -77,3 +77,12 @@ GROUPS.append(dict(name='parse_pad_n1', tier='thorough', cls='P', tu='C06_parse_
     functions=['opus_packet_parse_impl'],
     defines=['-DVERIF_PARSE_CASE(data,len,sd)=(len>=2 && ((data)[0]&3)==3 && ((data)[1]&0x40)!=0 && ((data)[1]&0x3F)<=2)', '-DVERIF_PARSE_LC_PAD'],
     what='padding chain (do-while under loop contract, unbounded len) followed by at most 2 frames, CBR or VBR, both framings'))
+
+GROUPS += [
+ dict(name='has_lbrr', cls='F', tu='C06_has_lbrr.c', entry='h_has_lbrr', dfcc=False, unwind=6, timeout=900, canary='real', expect_canaries=2,
+      functions=['opus_packet_has_lbrr', 'opus_packet_get_mode', 'opus_packet_get_samples_per_frame', 'opus_packet_get_nb_channels'],
+      what='opus_packet_has_lbrr equals the OR of the LBRR flags read with the real range decoder as silk_Decode does; every TOC (code 0), frame of 1-3 symbolic bytes'),
+ dict(name='helpers_agree', cls='F', tu='C06_has_lbrr.c', entry='h_helpers_agree', dfcc=False, unwind=50, timeout=900, canary='real',
+      functions=['opus_packet_get_nb_frames', 'opus_packet_get_nb_samples', 'opus_packet_get_samples_per_frame', 'opus_packet_get_nb_channels'],
+      what='frame count / total samples / samples per frame / channels helpers agree with the parser and the RFC table on every packet of <= 3 bytes'),
+]
